@@ -349,7 +349,7 @@ Next ==
                  ELSE IF r.e = "KLStep" /\ HasMemo /\ Len(r.cells) = Len(memo.cells) THEN [has |-> TRUE, once |-> OnceSum(r), lib |-> r.lib]
                  ELSE kl
         /\ mle' = IF isCfg THEN [on |-> FALSE]
-                  ELSE IF r.e = "MLE" THEN (IF HasMemo /\ ~r.thr THEN [on |-> TRUE, has |-> FALSE, exact |-> r.exact, k |-> r.k, model |-> r.model, doGeo |-> r.doGeo,
+                  ELSE IF r.e = "MLE" THEN (IF HasMemo /\ g # NoCfg /\ MLEOk(r) THEN [on |-> TRUE, has |-> FALSE, exact |-> r.exact, k |-> r.k, model |-> r.model, doGeo |-> r.doGeo,
                                                                        doBlock |-> r.doBlock, niter |-> r.niter, neff |-> r.neff, next |-> << 1, "eff", 1 >>]
                                             ELSE [on |-> FALSE])
                   ELSE IF r.e = "MLEStep" /\ mle.on /\ HasMemo /\ r.kind \in {"eff", "geo", "block"}
